@@ -550,8 +550,13 @@ fn build_func<'a>(
     for l in locals {
         fb.add_local(l.data_type());
     }
-    for op in ops {
-        fb.inject(op);
+    // half of the bodies are handed over in one call
+    if ops.len() % 2 == 0 {
+        fb.inject_all(&ops);
+    } else {
+        for op in ops {
+            fb.inject(op);
+        }
     }
     if let Some(n) = name {
         fb.set_name(n.clone());
